@@ -1,182 +1,301 @@
-"""Hunt script for property C18 (wheel file names and platform names are parsed faithfully).
+"""Hunt (round 3) for violations of C18 on the unmodified tree.
 
-Run:  cd /tmp/wt/C18g && PYTHONPATH=/tmp/wt/C18g/src /venv/bin/python hunt_C18.py
-
-Part 1 prints the NEW finding that lies inside the quantifier (file names packaging accepts).
-Part 2 prints borderline findings (platform strings next to / outside the documented families).
-Part 3 re-runs the random comparison against packaging that found nothing else.
+Run:  cd /tmp/wt/C18i && PYTHONPATH=/tmp/wt/C18i/src /venv/bin/python hunt_C18.py
 """
 
 from __future__ import annotations
 
+import itertools
 import random
+import sys
+from unittest import mock
 
-from packaging.utils import InvalidWheelFilename as PkgInvalidWheelFilename
+from packaging.utils import InvalidWheelFilename as PkgInvalid
 from packaging.utils import parse_wheel_filename
 
-from dep_logic.tags import os as O
-from dep_logic.tags.platform import Arch, Platform, PlatformError
-from dep_logic.tags.tags import EnvSpec, InvalidWheelFilename, parse_wheel_tags
+from dep_logic.tags import EnvSpec, Platform, PlatformError, os
+from dep_logic.tags.platform import Arch
+from dep_logic.tags.tags import InvalidWheelFilename, parse_wheel_tags
+
+findings: list[str] = []
+cases = 0
 
 
-def call(f):
-    try:
-        return ("ok", f())
-    except Exception as e:  # noqa: BLE001
-        return ("raise", f"{type(e).__name__}: {e}")
-
-
-print("=" * 78)
-print("PART 1  N1: wheel_compatibility() crashes with a bare ValueError on wheel names")
-print("        packaging accepts (python tag whose 'minor' part is a PEP 440 suffix)")
-print("=" * 78)
-env = EnvSpec.from_spec(">=3.8")
-for fn in [
-    "foo-1.0-py3a1-none-any.whl",
-    "foo-1.0-py31post1-none-any.whl",
-    "foo-1.0-py30rc1-none-any.whl",
-    "foo-1.0-cp31a1-abi3-any.whl",
-    "foo-1.0-cp30rc1-abi3-manylinux_2_17_x86_64.whl",
-    "foo-1.0-1-py2.py3dev0-none-any.whl",
-]:
-    tags = sorted(str(t) for t in parse_wheel_filename(fn)[3])
-    print(f"input            : {fn}")
-    print(f"  packaging      : accepted, tags = {tags}")
-    print(f"  parse_wheel_tags: {call(lambda: parse_wheel_tags(fn))}")
-    print(f"  wheel_compatibility(>=3.8): {call(lambda: env.wheel_compatibility(fn))}")
-    print(
-        "  expected       : a verdict (None: no interpreter is called 3.a1) or at least a TagsError;"
-        " sibling spellings such as py3_1 / cp31dev0 / cpx do return None"
+def oracle_sets(fn: str):
+    tags = parse_wheel_filename(fn)[3]
+    return (
+        {t.interpreter for t in tags},
+        {t.abi for t in tags},
+        {t.platform for t in tags},
     )
-print()
-print("mechanism: _evaluate_python builds f'>={major}.{minor}', which IS a valid specifier")
-print("for minor='a1'/'1post1'/'0rc1', so InvalidSpecifier is not raised and int(minor) blows up.")
-
-print()
-print("=" * 78)
-print("PART 2  borderline (not counted as in-quantifier violations)")
-print("=" * 78)
-for s, why in [
-    ("manylinux_2_17_foo", "documented family, unknown arch: bare ValueError, not PlatformError"),
-    ("macos_14_0_universal2", "documented family, unknown arch: bare ValueError, not PlatformError"),
-    ("windows_foo", "documented family, unknown arch: bare ValueError, not PlatformError"),
-    ("win32", "no underscore: 'not enough values to unpack' ValueError, not PlatformError"),
-    ("illumos_5_11_x86_64", "TypeError (Illumos() needs two arguments) - already known"),
-    ("openbsd_7_x86_64", "parses, but str() drops the release and does not parse back"),
-    ("Linux_x86_64", "Generic('Linux'): str() lower-cases, round trip gives a different object"),
-    ("manylinux_2_17_x86_64\n", "trailing newline accepted ('$' in the regex)"),
-]:
-    r = call(lambda: Platform.parse(s))
-    line = f"Platform.parse({s!r}) -> {r}"
-    if r[0] == "ok":
-        p = r[1]
-        rt = call(lambda: Platform.parse(str(p)))
-        line += f"; str = {str(p)!r}; parse(str(p)) -> {rt}; equal = {rt[0] == 'ok' and rt[1] == p}"
-    print(line)
-    print(f"    note: {why}")
-
-print()
-print("=" * 78)
-print("PART 3  random comparison with packaging (found nothing beyond N1)")
-print("=" * 78)
-rnd = random.Random(2024)
-names = ["foo", "Foo_Bar", "a.b", "x_y.z", "zope.interface", "A", "a1", "ruamel.yaml.clib"]
-versions = ["1.0", "1!2.0", "2.0.post1", "1.0a1", "1.0.dev3", "1.0+local.1", "2024.1.1", "0", "1.0rc1.post2.dev3", "1.0+ubuntu_1"]
-builds = ["1", "2b", "0", "123abc", "1_x", "7.foo"]
-pys = ["py2", "py3", "py30", "py36", "py310", "cp27", "cp36", "cp310", "cp313", "pp310", "pt39", "ip27", "CP39", "Py3",
-       "graalpy311", "cp3", "py", "cp314", "PY2", "cp3_10", "pyé", "ǅ3"]
-abis = ["none", "abi3", "cp36m", "cp310", "cp313t", "cp27mu", "pypy310_pp73", "ABI3", "None", "CP39", "graalpy311_native",
-        "cp36dm", "abi4", "cp313td", "İ"]
-plats = ["any", "win32", "win_amd64", "win_arm64", "linux_x86_64", "linux_armv7l", "manylinux1_x86_64", "manylinux2010_i686",
-         "manylinux2014_aarch64", "manylinux_2_17_x86_64", "manylinux_2_28_aarch64", "musllinux_1_1_x86_64",
-         "musllinux_1_2_aarch64", "macosx_10_9_x86_64", "macosx_11_0_arm64", "macosx_10_9_universal2", "macosx_10_6_intel",
-         "macosx_10_6_universal", "ANY", "Win_AMD64", "MacOSX_10_9_X86_64", "freebsd_13_x86_64", "ios_13_0_arm64_iphoneos",
-         "android_21_arm64_v8a"]
-envs = [EnvSpec.from_spec(*a) for a in [
-    (">=3.8",), (">=3.9", "linux", "cpython"), (">=3.7,<3.11", "windows", "cpython"), (">=3.10", "macos", "cpython"),
-    (">=3.13", "macos", "cpython", True), (">=3.8", "alpine", "pypy"), ("==3.9.*", "macos_12_0_x86_64", "cpython"),
-    (">=2.7", "manylinux_2_28_aarch64", None), (">=3.6", "windows_x86", "pyston"), (">=3.6", "macos_10_9_x86_64", "cpython")]]
 
 
-def comp(pool):
-    return ".".join(rnd.choice(pool) for _ in range(rnd.choice([1, 1, 1, 2, 2, 3, 4])))
+def lib_sets(fn: str):
+    p, a, l = parse_wheel_tags(fn)
+    return set(p), set(a), set(l)
 
 
-def gen():
-    parts = [rnd.choice(names), rnd.choice(versions)]
-    if rnd.random() < 0.4:
-        parts.append(rnd.choice(builds))
-    parts += [comp(pys), comp(abis), comp(plats)]
-    fn = "-".join(parts) + ".whl"
-    r = rnd.random()
-    if r < 0.03:
-        fn = fn[:-4] + rnd.choice([".zip", ".WHL", ".whl ", ".tar.gz", "", ".Whl", ".whl.zip"])
-    elif r < 0.06:
-        fn = rnd.choice(["x-", "a-b-"]) + fn
-    elif r < 0.09:
-        fn = fn.split("-", rnd.choice([1, 2, 3]))[-1]
-    return fn
-
-
-N = 30000
-viol = 0
-for _ in range(N):
-    fn = gen()
+def check_wheel(fn: str, note: str = "") -> bool:
+    """True when the library agrees with packaging on an accepted name."""
+    global cases
+    cases += 1
     try:
-        tags = parse_wheel_filename(fn)[3]
-    except PkgInvalidWheelFilename as e:
-        if "extension must be" in str(e) or "wrong number of parts" in str(e):
-            for f in (lambda: parse_wheel_tags(fn), lambda: envs[0].wheel_compatibility(fn)):
-                try:
-                    print("VIOLATION accepted", repr(fn), f())
-                    viol += 1
-                except InvalidWheelFilename:
-                    pass
-        continue
-    p, a, pl = parse_wheel_tags(fn)
-    got = {(x, y, z) for x in p for y in a for z in pl}
-    exp = {(t.interpreter, t.abi, t.platform) for t in tags}
-    if got != exp:
-        print("VIOLATION tag sets", repr(fn), sorted(got ^ exp))
-        viol += 1
-        continue
-    ip, ia, ipl = (sorted({getattr(t, k) for t in tags}) for k in ("interpreter", "abi", "platform"))
-    for e in envs:
-        r1, r2 = call(lambda: e.wheel_compatibility(fn)), call(lambda: e.compatibility(ip, ia, ipl))
-        if r1 != r2 or r1[0] != "ok":
-            print("VIOLATION compat", repr(fn), e, r1, r2)
-            viol += 1
-            break
-print(f"wheel names compared with packaging: {N}, violations: {viol}")
+        want = oracle_sets(fn)
+    except PkgInvalid:
+        return True  # outside the quantifier
+    try:
+        got = lib_sets(fn)
+    except Exception as e:  # noqa: BLE001
+        findings.append(f"{note}{fn!r}: packaging accepts {want}, library raises {e!r}")
+        return False
+    if got != want:
+        findings.append(f"{note}{fn!r}: library sees {got}, packaging reports {want}")
+        return False
+    return True
 
-canon = {"i386": "x86", "i686": "x86", "amd64": "x86_64", "arm64": "aarch64"}
-arches = [a.value for a in Arch] + list(canon)
-nums = [0, 1, 2, 3, 5, 9, 10, 11, 12, 14, 15, 16, 17, 20, 28, 34, 99, 100, 101, 255, 1000, 2**40]
-cnt = pviol = 0
-for fam, cls in [("manylinux", O.Manylinux), ("musllinux", O.Musllinux), ("macos", O.Macos)]:
-    for X in nums:
-        for Y in nums:
-            for a in arches:
-                for s in (f"{fam}_{X}_{Y}_{a}", f"{fam}_0{X}_00{Y}_{a}"):
-                    cnt += 1
-                    r = call(lambda: Platform.parse(s))
-                    good = r[0] == "ok" and r[1] == Platform(cls(X, Y), Arch(canon.get(a, a)))
-                    good = good and Platform.parse(str(r[1])) == r[1]
-                    if not good:
-                        print("VIOLATION platform", s, r)
-                        pviol += 1
-for alias, target in {"linux": "manylinux_2_17_x86_64", "windows": "windows_amd64", "macos": "macos_14_0_arm64",
-                      "alpine": "musllinux_1_2_x86_64", "macos_arm64": "macos_14_0_arm64",
-                      "macos_x86_64": "macos_14_0_x86_64"}.items():
-    cnt += 1
-    if Platform.parse(alias) != Platform.parse(target) or str(Platform.parse(alias)) != target:
-        print("VIOLATION alias", alias)
-        pviol += 1
-for a in arches:
-    cnt += 1
-    p = Platform.parse("windows_" + a)
-    if p != Platform(O.Windows(), Arch(canon.get(a, a))) or Platform.parse(str(p)) != p:
-        print("VIOLATION windows", a)
-        pviol += 1
-print(f"platform strings checked: {cnt}, violations: {pviol}")
-_ = PlatformError
+
+# --------------------------------------------------------------------------
+# 1. random fuzzer over the PEP 427 grammar (ASCII)
+# --------------------------------------------------------------------------
+rnd = random.Random(18)
+NAME_AL = "abcxyzABZ019_."
+PY = ["py2", "py3", "py27", "py310", "cp39", "cp313", "CP312", "pp310", "pt39", "ip27", "jy27", "graalpy311"]
+ABI = ["none", "abi3", "cp39", "cp313t", "cp36m", "cp27mu", "pypy310_pp73", "graalpy240_311_native", "ABI3", "cp312d"]
+PLAT = [
+    "any", "win32", "win_amd64", "win_arm64", "linux_x86_64", "linux_armv7l", "linux_armv6l",
+    "manylinux1_i686", "manylinux2010_x86_64", "manylinux2014_aarch64", "manylinux_2_17_x86_64",
+    "manylinux_2_28_ppc64le", "manylinux_2_31_riscv64", "manylinux_2_36_loongarch64", "manylinux_2_17_s390x",
+    "musllinux_1_1_x86_64", "musllinux_1_2_aarch64", "macosx_10_9_x86_64", "macosx_10_9_intel",
+    "macosx_10_6_universal", "macosx_11_0_arm64", "macosx_10_9_universal2", "macosx_10_10_fat64",
+    "macosx_10_4_fat32", "MacOSX_11_0_ARM64", "freebsd_14_0_release_amd64", "ios_13_0_arm64_iphoneos",
+    "android_21_arm64_v8a", "emscripten_3_1_58_wasm32", "wasi_0_0_0_wasm32",
+]
+
+
+def rand_name():
+    while True:
+        s = "".join(rnd.choice(NAME_AL) for _ in range(rnd.randint(1, 8)))
+        if "__" not in s:
+            return s
+
+
+def rand_version():
+    v = ".".join(str(rnd.randint(0, 30)) for _ in range(rnd.randint(1, 4)))
+    if rnd.random() < 0.2:
+        v = f"{rnd.randint(1, 3)}!" + v
+    if rnd.random() < 0.3:
+        v += rnd.choice(["a1", "b2", "rc3", ".post4", ".dev5", "_post1", ".RC1", "+local.1", "+abc_1"])
+    return v
+
+
+def rand_tag(pool):
+    if rnd.random() < 0.2:  # random ascii tag
+        alpha = "abcdefghijklmnopqrstuvwxyz0123456789_ABCXYZ"
+        base = [rnd.choice("abcpy") + "".join(rnd.choice(alpha) for _ in range(rnd.randint(0, 9)))]
+    else:
+        base = [rnd.choice(pool)]
+    while rnd.random() < 0.35:
+        base.append(rnd.choice(pool))
+    return ".".join(base)
+
+
+n_fuzz = 120_000
+for _ in range(n_fuzz):
+    parts = [rand_name(), rand_version()]
+    if rnd.random() < 0.4:
+        parts.append(str(rnd.randint(0, 999)) + rnd.choice(["", "", "b", "_x", ".1", "abc"]))
+    parts += [rand_tag(PY), rand_tag(ABI), rand_tag(PLAT)]
+    ext = ".whl"
+    r = rnd.random()
+    if r < 0.05:
+        ext = rnd.choice([".zip", ".WHL", ".whl ", ".tar.gz", "", ".whl.txt", ".wh", "whl"])
+    elif r < 0.10:
+        if rnd.random() < 0.5 and len(parts) > 3:
+            del parts[rnd.randrange(len(parts))]
+            del parts[rnd.randrange(len(parts))]
+        else:
+            parts.insert(rnd.randrange(len(parts)), rnd.choice(["1", "x", "py3"]))
+            parts.insert(rnd.randrange(len(parts)), rnd.choice(["1", "x", "py3"]))
+    fn = "-".join(parts) + ext
+    cases += 1
+    try:
+        want = oracle_sets(fn)
+    except PkgInvalid:
+        want = None
+    try:
+        got = lib_sets(fn)
+    except InvalidWheelFilename:
+        got = None
+    except Exception as e:  # noqa: BLE001
+        findings.append(f"fuzz {fn!r}: unexpected {e!r}")
+        continue
+    dashes = fn[:-4].count("-")
+    bad_shape = not fn.endswith(".whl") or dashes not in (4, 5)
+    if bad_shape and got is not None:
+        findings.append(f"fuzz {fn!r}: wrong extension / part count but library returned {got}")
+    if want is not None and got != want:
+        findings.append(f"fuzz {fn!r}: library {got}, packaging {want}")
+    # wheel_compatibility must see the same sets as compatibility() on packaging's sets
+    if want is not None and got is not None and rnd.random() < 0.05:
+        for env in (
+            EnvSpec.from_spec(">=3.8", "linux", "cpython"),
+            EnvSpec.from_spec(">=3.9", "macos_12_0_x86_64"),
+            EnvSpec.from_spec("==3.13.*", "windows_arm64", "cpython", True),
+            EnvSpec.from_spec(">=2.7", "musllinux_1_2_aarch64", "pypy"),
+        ):
+            try:
+                a = env.wheel_compatibility(fn)
+                b = env.compatibility(sorted(want[0]), sorted(want[1]), sorted(want[2]))
+            except ValueError:
+                continue  # known family 12 (py3a1-like tags) cannot occur here, but be safe
+            if a != b:
+                findings.append(f"fuzz {fn!r} env {env}: wheel_compatibility {a} != on packaging sets {b}")
+
+# --------------------------------------------------------------------------
+# 2. hand-built wheel names for branches no random generator reaches
+# --------------------------------------------------------------------------
+hand = [
+    "a-0-py3-none-any.whl",
+    "A.b_c-1!2.0.post1-0-py2.py3-none-any.whl",
+    "foo-1.0-1-py3-none-any.whl",  # build tag that is also a legal implicit post release
+    "foo-1.0-py3.py3-none.none-any.any.whl",  # duplicates
+    "my.whl-1.0-py3-none-any.whl",  # '.whl' inside the project name
+    "foo.whl.bar-1.0-7-cp39.cp310-abi3-manylinux_2_17_x86_64.manylinux2014_x86_64.whl",
+    "foo-1.0-py3-none-any.whl.whl",  # '.whl' as a compressed platform member
+    "foo-1.0-py3-none-macosx_10.9_x86_64.whl",  # legacy dotted macOS tag splits like packaging does
+    "FOO-1.0-PY3-NONE-ANY.whl",
+    "foo-1.0-py3-none-any.WHL",
+    "foo-1.0-py3-none-any.whl\n",
+    "foo-1.0-py3-none-any.whl/",
+    "-1.0-py3-none-any.whl",
+    "foo--py3-none-any.whl",
+    "foo-1.0-py3-none-anİ.whl",  # dotted capital I lower-cases to two code points
+    "foo-1.0-py3-ẞ-any.whl",  # capital sharp s
+]
+for fn in hand:
+    check_wheel(fn, "hand ")
+
+# context dependent lower-casing (Greek final sigma): lower() of the whole field vs of each member
+for fn in [
+    "foo-1.0-py3-AΣ.B-any.whl",
+    "foo-1.0-AΣ.py3-none-any.whl",
+    "foo-1.0-py3-none-AΣ.B.whl",
+]:
+    check_wheel(fn, "NEW (non-ASCII, cosmetic) ")
+
+# --------------------------------------------------------------------------
+# 3. platforms: choices(), aliases, round trip for every os x arch x version
+# --------------------------------------------------------------------------
+aliases = {
+    "linux": "manylinux_2_17_x86_64",
+    "windows": "windows_amd64",
+    "macos": "macos_14_0_arm64",
+    "alpine": "musllinux_1_2_x86_64",
+    "macos_arm64": "macos_14_0_arm64",
+    "macos_x86_64": "macos_14_0_x86_64",
+}
+for a, t in aliases.items():
+    cases += 1
+    if Platform.parse(a) != Platform.parse(t):
+        findings.append(f"alias {a!r} -> {Platform.parse(a)} but documented target {t}")
+versions = [(0, 0), (1, 0), (1, 1), (1, 2), (2, 5), (2, 17), (2, 28), (2, 36), (10, 9), (10, 16), (11, 0), (14, 0), (14, 2), (15, 5), (26, 0), (99, 99), (100, 1000)]
+for choice in Platform.choices():
+    for x, y in versions:
+        name = choice.replace("X_Y", f"{x}_{y}")
+        cases += 1
+        try:
+            p = Platform.parse(name)
+        except Exception as e:  # noqa: BLE001
+            findings.append(f"choices entry {name!r} does not parse: {e!r}")
+            continue
+        if Platform.parse(str(p)) != p or hash(Platform.parse(str(p))) != hash(p):
+            findings.append(f"round trip fails for {name!r}: str -> {str(p)!r}")
+        if "X_Y" in choice:
+            if (p.os.major, p.os.minor) != (x, y) or not str(p.os).startswith(choice.split("_")[0]):
+                findings.append(f"{name!r} parsed as {p!r}")
+            want_arch = {"arm64": Arch.Aarch64, "aarch64": Arch.Aarch64, "x86_64": Arch.X86_64}[name.split("_", 3)[3]]
+            if p.arch is not want_arch:
+                findings.append(f"{name!r} parsed with arch {p.arch!r}")
+        if "X_Y" not in choice:
+            break
+# constructed objects (not through the parser)
+for os_cls, arch, (x, y) in itertools.product((os.Manylinux, os.Musllinux, os.Macos), Arch, versions):
+    p = Platform(os_cls(x, y), arch)
+    cases += 1
+    try:
+        q = Platform.parse(str(p))
+    except Exception as e:  # noqa: BLE001
+        findings.append(f"str({p!r}) = {str(p)!r} does not parse: {e!r}")
+        continue
+    if q != p or hash(q) != hash(p) or str(q) != str(p):
+        findings.append(f"round trip {p!r} -> {str(p)!r} -> {q!r}")
+for arch in Arch:
+    p = Platform(os.Windows(), arch)
+    cases += 1
+    if Platform.parse(str(p)) != p:
+        findings.append(f"round trip {p!r} -> {str(p)!r}")
+# arch spellings
+for name, want in {
+    "macos_12_3_aarch64": "macos_12_3_arm64",
+    "manylinux_2_28_arm64": "manylinux_2_28_aarch64",
+    "manylinux_2_28_amd64": "manylinux_2_28_x86_64",
+    "musllinux_1_1_i686": "musllinux_1_1_x86",
+    "windows_i386": "windows_x86",
+    "windows_aarch64": "windows_arm64",
+    "windows_x86_64": "windows_amd64",
+    "manylinux_02_017_x86_64": "manylinux_2_17_x86_64",
+}.items():
+    cases += 1
+    p = Platform.parse(name)
+    if str(p) != want or Platform.parse(str(p)) != p:
+        findings.append(f"{name!r}: str {str(p)!r}, expected {want!r}")
+
+# Platform.current() / EnvSpec.current() under several sysconfig platforms
+for plat, machine in [
+    ("linux-x86_64", None), ("linux-aarch64", None), ("linux-i686", None), ("linux-armv7l", None),
+    ("linux-ppc64le", None), ("linux-riscv64", None), ("win-amd64", None), ("win32", None), ("win-arm64", None),
+    ("macosx-11.0-arm64", ("14.4.1", ("", "", ""), "arm64")),
+    ("macosx-10.9-universal2", ("13.6", ("", "", ""), "x86_64")),
+    ("macosx-10.9-x86_64", ("10.15.7", ("", "", ""), "x86_64")),
+]:
+    cases += 1
+    with mock.patch("sysconfig.get_platform", return_value=plat), mock.patch(
+        "platform.mac_ver", return_value=machine
+    ):
+        try:
+            p = Platform.current()
+            if Platform.parse(str(p)) != p:
+                findings.append(f"current() under {plat}: {p!r} does not round trip via {str(p)!r}")
+        except Exception as e:  # noqa: BLE001
+            findings.append(f"current() under {plat}: {e!r}")
+e = EnvSpec.current()
+cases += 1
+if EnvSpec.from_spec(**e.as_dict()) != e:
+    findings.append(f"EnvSpec.current() {e} does not round trip through as_dict()/from_spec()")
+
+# --------------------------------------------------------------------------
+# 4. observations on Platform.parse outside the documented families (not counted as
+#    violations of the quantified statement, listed for the record)
+# --------------------------------------------------------------------------
+observations = []
+for s in ["manylinux_2_17_x86_64\n", "manylinux_２_１７_x86_64", "macos_١٤_0_arm64"]:
+    try:
+        observations.append(f"Platform.parse({s!r}) is accepted -> {Platform.parse(s)} (regex '$' / Unicode \\d)")
+    except Exception as ex:  # noqa: BLE001
+        pass
+for s in ["manylinux_2_17_sparc", "macos_14_0_1_arm64", "windows_", "windows_sparc", "macos"[:3]]:
+    try:
+        Platform.parse(s)
+    except PlatformError:
+        pass
+    except Exception as ex:  # noqa: BLE001
+        observations.append(f"Platform.parse({s!r}) raises {type(ex).__name__} rather than PlatformError: {ex}")
+
+print(f"cases run: {cases}")
+print(f"violations: {len(findings)}")
+for f in findings:
+    print("  VIOLATION", f)
+print("observations (outside the documented families):")
+for o in observations:
+    print("  NOTE", o)
+sys.exit(0)
